@@ -601,11 +601,23 @@ func finishCheck(spec checkSpec, tier string, seed uint64, results []*CaseResult
 		if len(samples) < 4 && r.Sample != nil {
 			samples = append(samples, r.Sample)
 		}
+		if r.Status == "fatal" && spec.Prop == "C04" && GenScenario("C04", seed, r.Index).WeatherFault != "" {
+			// an incomplete weather input that makes the process exit with a message did "end with an error"
+			status["fatal_on_incomplete_weather"]++
+			cov["fault_cases_"+GenScenario("C04", seed, r.Index).WeatherFault]++
+			cov["fault_cases_ended_with_error"]++
+			continue
+		}
 		if (r.Status == "panic" || r.Status == "fatal") && !r.FnShard {
 			// a run that dies on a valid generated input cannot satisfy a "for every day of every run" property
 			// (and takes every other run of its batch process with it): reported under the property being checked
 			crashes++
 			sig := "crash:" + crashFunc(r.Err)
+			if spec.Prop == "C04" {
+				if sc := GenScenario("C04", seed, r.Index); sc.WeatherFault != "" {
+					sig = faultSig(sc, sig) // consequence of the unreported incomplete weather input
+				}
+			}
 			v := Violation{Prop: spec.Prop, Sig: sig, Msg: "run crashed on a valid generated input: " + r.Err}
 			if f := matchFinding(findings, v.Prop, v.Sig); f != nil {
 				known[f.ID] = append(known[f.ID], vrec{v, r})
